@@ -182,6 +182,38 @@ def check(rep, F, tier, replay=None):
         if extra:
             rep.violation("DEC-reject", "%s|%s" % (F.key(fid), ",".join(extra)), "%s rejects input with %s on its own: keys that the library generates or derives and that fail this hand-written test no longer survive from_bytes(as_bytes()) / hex / bech32" % (F.key(fid), ", ".join(extra)), {})
     rep.floor("raw key / signature decoders inventoried", 10, n_dec)
+    # DEC-len: each raw decoder accepts exactly one length; the two secret-key kinds PrivateKey::from_hex tries in turn are disjoint
+    rep.rule("DEC-len", "every raw key / signature decoder that tests the input length itself compares it for (in)equality with exactly one constant (one accepted length = the length as_bytes emits), and the accepted lengths of the normal and the extended Ed25519 secret decoders differ - PrivateKey::from_hex tries the normal decoder first and falls back to the extended one, so an overlap re-imports an extended key as a different normal key")
+    import fieldflow as ff_
+    lens_ = {}
+    for fid, fn in sorted(F.fns.items()):
+        last = fid.rsplit("::", 1)[-1]
+        if last not in ("public_from_binary", "secret_from_binary", "signature_from_bytes") or "/tests/" in fn["file"] or "::{closure" in fid:
+            continue
+        rep.inst("DEC-len")
+        org_ = ff_.Origins(F, fid)
+        consts_, ops_ = set(), set()
+        for bb in fn["bbs"]:
+            if bb["c"]:
+                continue
+            for st in bb["st"]:
+                if st[1] == "=" and st[3][0] == "bin" and st[3][1] in ("Eq", "Ne", "Lt", "Le", "Gt", "Ge"):
+                    for a_, b_ in ((st[3][2], st[3][3]), (st[3][3], st[3][2])):
+                        if b_[0] == "k" and any("::len@" in x or x == "arg:1" for x in org_.of_operand(a_)):
+                            try:
+                                consts_.add(int(str(b_[1]).split("_")[0]))
+                                ops_.add(st[3][1])
+                            except ValueError:
+                                pass
+        lens_[F.key(fid)] = consts_
+        if len(consts_) > 1 or ops_ - {"Eq", "Ne"}:
+            rep.violation("DEC-len", "%s|%s" % (F.key(fid), ",".join(str(c) for c in sorted(consts_))), "%s tests the input length against %s with %s: it accepts more than one length, so bytes of another key kind (a 64-byte extended key handed to the 32-byte decoder) are taken and truncated - PrivateKey::from_hex(extended.to_hex()) then yields a different key" % (F.key(fid), sorted(consts_), sorted(ops_)), {})
+    n_ = [v for k, v in lens_.items() if k.startswith("<Ed25519 as") and k.endswith("secret_from_binary")]
+    e_ = [v for k, v in lens_.items() if k.startswith("<Ed25519Extended as") and k.endswith("secret_from_binary")]
+    if len(n_) != 1 or len(e_) != 1 or not n_[0] or not e_[0]:
+        rep.lost("length gates of the normal / extended Ed25519 secret decoders not found")
+    elif n_[0] & e_[0]:
+        rep.violation("DEC-len", "overlap|%s" % sorted(n_[0] & e_[0]), "the normal and the extended Ed25519 secret decoders both accept length %s: PrivateKey::from_hex always picks the normal one" % sorted(n_[0] & e_[0]), {})
     # EMIP-min: the shortest ciphertext decrypt accepts is the one encrypt produces for an empty plaintext
     from ruleutil import gate_min
     rep.rule("EMIP-min", "decrypt_with_password goes on to decrypt exactly when the input holds at least salt + nonce + tag (METADATA_SIZE) bytes: the encryption of an empty plaintext has exactly that length and must decrypt")
